@@ -35,6 +35,26 @@ MUTANTS: List[Dict[str, Any]] = [
     M("c03-subnet_of-empty-guard", ["C03"], E("helpers.py", "subnet_of", "    if not (tops and bottoms):\n        return False\n", ""), "empty"),
     M("c03-tops-bottoms-swapped", ["C03"], E("ace.py", "Ace._shadow_of__dstaddr", "return h.subnet_of(tops=tops, bottoms=bottoms)", "return h.subnet_of(tops=bottoms, bottoms=tops)"), "_shadow_of__dstaddr"),
     M("c03-ip-name-moved", ["C03", "C09"], E("protocol.py", "<module>", 'PROTOCOLS_NXOS = {\n    "ip": 0,\n    "icmp": 1,', 'PROTOCOLS_NXOS = {\n    "ip": 1,\n    "icmp": 1,'), ""),
+    # ------------------------------------------------------------------ C04 / C11 (shading, delete_shadow)
+    M("c04-self-shadow-slice", ["C04", "C11"], E("acl.py", "Acl.shading", "aces_bottom = aces[idx + 1 :]", "aces_bottom = aces[idx:]"), "Acl.shading"),
+    M("c04-receiver-swapped", ["C04", "C11"], E("acl.py", "Acl.shading", "if ace_bottom.shadow_of(other=ace_top, skip=skip):", "if ace_top.shadow_of(other=ace_bottom, skip=skip):"), "Acl.shading"),
+    M("c04-return-empty-report", ["C04"], E("acl.py", "Acl.delete_shadow", "        self.items = acl_new.items\n        return shading_d\n", "        self.items = acl_new.items\n        return {}\n"), "report"),
+    M("c04-report-mutated", ["C04"], E("acl.py", "Acl.delete_shadow", "        shadow: LStr = [s for ls in shading_d.values() for s in ls]\n", "        shadow: LStr = [s for ls in shading_d.values() for s in ls]\n        shading_d.pop(next(iter(shading_d)))\n"), "modified"),
+    M("c04-filter-whole-list", ["C04"], E("acl.py", "Acl.delete_shadow", "            items_bot = acl_new.items[idx:]\n", "            items_bot = acl_new.items\n            items_top = []\n"), "delete_shadow"),
+    M("c04-index-without-plus-one", ["C04"], E("acl.py", "Acl.delete_shadow", "idx = aces.index(top) + 1", "idx = aces.index(top)"), "top itself"),
+    M("c04-no-regroup", ["C04"], E("acl.py", "Acl.delete_shadow", "        if self.group_by:\n            acl_new.group(self.group_by)\n", ""), "regroup"),
+    M("c04-regroup-inverted", ["C04"], E("acl.py", "Acl.delete_shadow", "        if self.group_by:\n            acl_new.group(self.group_by)\n", "        if not self.group_by:\n            acl_new.group(self.group_by)\n"), "regroup"),
+    M("c04-shading-mutates-self", ["C04"], E("acl.py", "Acl.shading", "        acl_o = self.copy()\n        acl_o.ungroup()\n", "        acl_o = self\n        acl_o.ungroup()\n"), "modifies the ACL"),
+    M("c04-skip-dropped", ["C04"], E("acl.py", "Acl.delete_shadow", "shading_d: DLStr = self.shading(skip)", "shading_d: DLStr = self.shading()"), "skip"),
+    M("c04-extra-removal", ["C04"], E("acl.py", "Acl.delete_shadow", "        if self.group_by:\n            acl_new.group(self.group_by)\n", "        if self.group_by:\n            acl_new.group(self.group_by)\n        if acl_new.items:\n            acl_new.items.pop()\n"), "removed by a statement"),
+    M("c04-sorted-aces", ["C04", "C11"], E("acl.py", "Acl.shading", "aces = [o for o in acl_o.items if isinstance(o, Ace)]", "aces = sorted(o for o in acl_o.items if isinstance(o, Ace))"), "Acl.shading"),
+    M("c11-append-outside-guard", ["C11"], E("acl.py", "Acl.shading", "                    if ace_bottom.line not in shadow:\n                        shading_d.setdefault(ace_top.line, []).append(ace_bottom.line)\n", "                    shading_d.setdefault(ace_top.line, []).append(ace_bottom.line)\n"), "guard"),
+    M("c11-add-inside-guard-only-else", ["C11"], E("acl.py", "Acl.shading", "                    shadow.add(ace_bottom.line)\n", ""), "Acl.shading"),
+    M("c11-tops-reversed", ["C11"], E("acl.py", "Acl.shading", "for idx, ace_top in enumerate(aces):", "for idx, ace_top in reversed(list(enumerate(aces))):"), "list order"),
+    M("c11-shadow-reset-per-top", ["C11"], E("acl.py", "Acl.shading", "            aces_bottom = aces[idx + 1 :]\n", "            aces_bottom = aces[idx + 1 :]\n            shadow = set()\n"), "reset"),
+    M("c11-append-on-negative", ["C11"], E("acl.py", "Acl.shading", "                if ace_bottom.shadow_of(other=ace_top, skip=skip):", "                if not ace_bottom.shadow_of(other=ace_top, skip=skip):"), "Acl.shading"),
+    M("c11-key-is-bottom", ["C11"], E("acl.py", "Acl.shading", "shading_d.setdefault(ace_top.line, []).append(ace_bottom.line)", "shading_d.setdefault(ace_bottom.line, []).append(ace_top.line)"), "under its top"),
+    M("c11-ncw-reads-only-self", ["C11"], E("ace.py", "Ace._shadow_of__srcaddr", "if not (self.srcaddr.ipnet and other.srcaddr.ipnet):", "if not self.srcaddr.ipnet:"), "nc_wildcard"),
     # ------------------------------------------------------------------ C09
     M("c09-www-8080", ["C09"], E("port_name.py", "<module>", '    "gopher": 70,\n    "finger": 79,\n    "www": 80,\n    "hostname": 101,\n    "pop2": 109,\n    "pop3": 110,\n    "sunrpc": 111,\n    "ident": 113,\n    "nntp": 119,\n    "bgp": 179,', '    "gopher": 70,\n    "finger": 79,\n    "www": 8080,\n    "hostname": 101,\n    "pop2": 109,\n    "pop3": 110,\n    "sunrpc": 111,\n    "ident": 113,\n    "nntp": 119,\n    "bgp": 179,'), "www"),
     M("c09-igrp-88-in-ios", ["C09"], E("protocol.py", "<module>", '    "eigrp": 88,\n    "ospf": 89,\n    "nos": 94,\n    "pim": 103,\n    "pcp": 108,\n}\nPROTOCOLS_NXOS', '    "eigrp": 88,\n    "igrp": 88,\n    "ospf": 89,\n    "nos": 94,\n    "pim": 103,\n    "pcp": 108,\n}\nPROTOCOLS_NXOS'), "igrp"),
@@ -49,6 +69,8 @@ MUTANTS: List[Dict[str, Any]] = [
 
 
 TWINS: List[Dict[str, Any]] = [
+    {"id": "twin-shading-combinations", "edits": [E("acl.py", "Acl.shading", "        for idx, ace_top in enumerate(aces):\n            aces_bottom = aces[idx + 1 :]\n            for ace_bottom in aces_bottom:\n                if ace_bottom.shadow_of(other=ace_top, skip=skip):\n                    if ace_bottom.line not in shadow:\n                        shading_d.setdefault(ace_top.line, []).append(ace_bottom.line)\n                    shadow.add(ace_bottom.line)\n", "        for idx, ace_top in enumerate(aces):\n            for ace_bottom in aces[idx + 1 :]:\n                if not ace_bottom.shadow_of(other=ace_top, skip=skip):\n                    continue\n                if ace_bottom.line not in shadow:\n                    shading_d.setdefault(ace_top.line, []).append(ace_bottom.line)\n                    shadow.add(ace_bottom.line)\n")]},
+    {"id": "twin-delete-shadow-early-return", "edits": [E("acl.py", "Acl.delete_shadow", "        if not shading_d:\n            return {}\n", "        if not shading_d:\n            return shading_d\n")]},
     {"id": "twin-shadow_of-and-chain", "edits": [E("ace.py", "Ace.shadow_of", "        if not self._shadow_of__option(other):\n            return False\n        return True\n", "        return self._shadow_of__option(other)\n")]},
     {"id": "twin-srcaddr-no-temp", "edits": [E("ace.py", "Ace._shadow_of__srcaddr", "        is_subnet = h.subnet_of(tops=tops, bottoms=bottoms)\n        return is_subnet\n", "        return h.subnet_of(tops=tops, bottoms=bottoms)\n")]},
     {"id": "twin-port-issubset", "edits": [E("ace.py", "Ace._shadow_of__srcport", "            diff = bottom.intersection(top)\n            return diff == bottom\n", "            return bottom.issubset(top)\n"), E("ace.py", "Ace._shadow_of__dstport", "            diff = bottom.intersection(top)\n            return diff == bottom\n", "            return bottom.issubset(top)\n")]},
